@@ -193,14 +193,15 @@ Section process.
       assert (Hc : registered reg c = true) by (unfold registered; rewrite Fk; reflexivity).
       eapply wt_class; [apply rsub_refl; exact Hc | exact Fk | exact Hconc | destruct n2; reflexivity |].
       apply set_tag_attrs.
-      destruct (is_objectlike k) eqn:Ho.
-      + assert (Hwf : wf_cls k).
+      destruct (is_objectlike k && is_mapping n1) eqn:Ho.
+      + apply andb_true_iff in Ho. destruct Ho as [Ho _]. assert (Hwf : wf_cls k).
         { destruct Hreg as (_ & Hall & _). rewrite Forall_forall in Hall. apply Hall. eapply find_cls_in; eauto. }
         destruct Hwf as (Hnd & _).
         apply (process_attrs_inv reg (process o reg f) (fun s t s' Es => IH _ _ _ Es) (params_of k) [] n1 n2 Hnd); [|exact E2].
         intros tg ps m p _ [].
-      + injection E2 as <-. intros tg ps m p _ Hp. unfold params_of in Hp. unfold is_objectlike in Ho.
-        destruct (c_shape k); [discriminate | destruct Hp | destruct Hp].
+      + injection E2 as <-. intros tg ps m p Hn Hp. apply andb_false_iff in Ho. destruct Ho as [Ho|Ho].
+        * unfold params_of in Hp. unfold is_objectlike in Ho. destruct (c_shape k); [discriminate | destruct Hp | destruct Hp].
+        * subst n1. discriminate Ho.
     - (* TUnknown *) unfold type_to_tag, scalar_tag in E. cbn [kind_of_ty] in E. discriminate.
   Qed.
 
